@@ -19,6 +19,28 @@ and guards in normal form (C06_helpers.resolve), so they do not depend on loop v
 R2 reads "element k of argv" in normal form (C06_helpers.element: slice patterns, split_first / sub-slices / slice->array
 conversion / array::map, private helpers inlined); R4's guard and R6 read file-type tests in normal form (C06_helpers.file_test:
 Path::is_file(p) = fs::metadata(p) ok and is_file); R5 reads "kind() == NotFound" in normal form (C06_helpers.not_found_test).
+Deepening round (C06-d-* mutants / benign variants in selftest):
+  R1 */unmodified, helpers/unmodified   no local that carries a part of the context (in the hosts and the private assembly
+                       helpers) is borrowed mutably / partly overwritten between its source and the hand-over
+                       (C06_helpers.carried_locals / inplace_mutations: in-place changes do not show in symbolic values)
+  R2 argv-source, args-handed-on        the parsers get env::args() element for element; the phase entry points get the
+                       parser's result (a failed parse diverges)
+  R3 target-exact/*    nothing computes on the content of CNB_TARGET_* on its way into the field (C06_helpers.env_var_exact)
+  R4 only-file-filter  every guard of the insert is "an input read succeeded / is present" or a file test implied by is_file
+     all-entries       loops around the insert are left on success only by exhaustion; no truncating adapter; a short-
+                       circuiting consumer only when its failure cannot end in success
+     entry-error       the element Result of the listing is propagated (fates of the `next()` payload; an element used as an
+                       iterator = flatten is a silent skip)
+     fresh-env         the Env written to starts empty and is the one returned;  unmodified: name / content not changed in place
+     env-insert        Env::insert stores (key.into(), value.into()) unconditionally, unchanged
+     listing-tolerance-exact   from the failed-listing arm no success is reachable except through "kind is exactly NotFound"
+     generic-platform-unmodified
+  R5 store/some        every alternative of BuildContext.store is None or Some(read_toml_file(<layers>/store.toml)?)
+     not-found-predicate  the workspace's not-found predicate is exactly kind() == NotFound
+  R6                   now also covers libcnb_common::toml_file::read_toml_file and its private helpers
+  R7 read_toml_file    normal form toml::from_str(&fs::read_to_string(P)?)? with P the parameter
+  R8 schema/*          BuildpackPlan / Entry / Store / descriptor: spec keys -> same-named fields, unknown keys rejected,
+                       metadata a TOML table, absent keys only filled with the empty value (lib/serde_schema)
 Not decided: equality of parsed TOML values with the document (toml crate), file contents.
 """
 from .lib.discard import result_fates, local_fates, verdict
@@ -34,7 +56,9 @@ RD = 'libcnb::runtime::libcnb_runtime_detect'
 RB = 'libcnb::runtime::libcnb_runtime_build'
 ASSEMBLY_RX = (r'^libcnb::runtime::(libcnb_runtime_detect|libcnb_runtime_build|context_target|read_buildpack_dir|read_buildpack_descriptor)(::\{closure#\d+\})*$',
                r'^libcnb::platform::read_platform_env(::\{closure#\d+\})*$',
-               r'^<libcnb::generic::GenericPlatform as libcnb::platform::Platform>::from_path(::\{closure#\d+\})*$')
+               r'^<libcnb::generic::GenericPlatform as libcnb::platform::Platform>::from_path(::\{closure#\d+\})*$',
+               r'^libcnb_common::toml_file::read_toml_file(::\{closure#\d+\})*$')
+READ_TOML = 'libcnb_common::toml_file::read_toml_file'
 INSERT = 'libcnb::env::Env::insert'
 TARGET = {'os': 'CNB_TARGET_OS', 'arch': 'CNB_TARGET_ARCH', 'arch_variant': 'CNB_TARGET_ARCH_VARIANT',
           'distro_name': 'CNB_TARGET_DISTRO_NAME', 'distro_version': 'CNB_TARGET_DISTRO_VERSION'}
@@ -128,10 +152,13 @@ def run(ctx, rep):
     prog, sl = ctx.prog, ctx.slicer
     for r, d in (('R1', 'context field sources'), ('R2', 'argv positions of the phase arguments'), ('R3', 'Target fields <- CNB_TARGET_* variables'),
                  ('R4', 'platform env reader: is_file guard, key/value provenance, NotFound-only tolerance'),
-                 ('R5', 'store.toml: None only on NotFound'), ('R6', 'no input read has its Result discarded')):
+                 ('R5', 'store.toml: None only on NotFound'), ('R6', 'no input read has its Result discarded'),
+                 ('R7', 'read_toml_file(P) = toml::from_str(read_to_string(P)?)?'),
+                 ('R8', 'serde schema of the plan / store documents: spec keys, unknown keys rejected, metadata as a TOML table')):
         rep.rule(r, d)
     rep.not_decided = ['equality of parsed TOML values with the document (toml crate)', 'file contents']
     rd, rb = prog.fn(RD), prog.fn(RB)
+    fd, fb = {}, {}
     # ---- R1 ------------------------------------------------------------------------------------------
     for host, decl, adt in ((rd, 'libcnb::buildpack::Buildpack::detect', 'DetectContext'), (rb, 'libcnb::buildpack::Buildpack::build', 'BuildContext')):
         rep.analysed(host)
@@ -168,6 +195,13 @@ def run(ctx, rep):
             v = f.get(name, ('unknown', 'missing'))
             rep.check(bool(pred(v)), 'R1', '%s/%s' % (adt, name), c.where(), '%s <- prescribed input' % name,
                       '%s.%s is built from %s' % (adt, name, vstr(v)[:140]))
+        # ... and none of them is changed in place between its source and the hand-over (sorting / de-duplicating plan
+        # entries, editing a path): the locals that carry the context's parts are never borrowed mutably
+        from .lib.mir import op_place as _opl
+        p0 = _opl(c.args[1])
+        muts = H.inplace_mutations(host, H.carried_locals(host, [p0[0]])) if p0 else ['context operand is not a place']
+        rep.check(not muts, 'R1', adt + '/unmodified', c.where(), 'no part of the context is modified in place before the hand-over',
+                  'an input is modified in place before it reaches %s: %s' % (adt, '; '.join(muts[:3])))
         # ---- R3 (per host: the Target handed to this phase) ------------------------------------------------
         tv = strip(f.get('target', ('unknown',)))
         if tv[0] != 'agg':
@@ -181,12 +215,27 @@ def run(ctx, rep):
                         src = env_var_name(inner[2][0])
                 rep.check(src == TARGET.get(name), 'R3', 'target/' + name, c.where(), '%s <- %s' % (name, TARGET.get(name)),
                           'Target.%s is read from %s, expected %s' % (name, src, TARGET.get(name)))
+                # ... and nothing computes on the content on its way into the field (case mapping, trimming, filtering, defaults)
+                exact = H.env_var_exact(fv)
+                rep.check(exact == TARGET.get(name), 'R3', 'target-exact/' + name, c.where(), '%s = content of %s, unmodified' % (name, TARGET.get(name)),
+                          'Target.%s is not the unmodified content of %s: %s' % (name, TARGET.get(name), vstr(fv)[:120]))
             rep.check(sorted(n for n, _ in tv[3]) == sorted(TARGET), 'R3', 'target/fields', c.where(), 'all Target fields covered', 'Target fields: %s' % [n for n, _ in tv[3]])
         else:
             rep.check(f.get('target') == fd.get('target'), 'R3', 'target/same-in-build', c.where(), 'build gets the same Target construction as detect',
                       'BuildContext.target is assembled differently from DetectContext.target: ' + vstr(tv)[:120])
         if host is rd:
             fd = f
+        else:
+            fb = f
+    # the same for the private helpers the assembly is split into (context_target, read_buildpack_dir, ..): what they return
+    # is not changed in place after it was read
+    hm = []
+    for path_, g in sorted(prog.reach([rd, rb]).items()):
+        if g.crate == 'libcnb' and path_.startswith('libcnb::runtime::') and g.vis != 'pub' and g.kind in ('Fn', 'AssocFn', 'Closure') and g not in (rd, rb):
+            rep.analysed(g)
+            hm.extend(H.inplace_mutations(g, H.carried_locals(g, [0])))
+    rep.check(not hm, 'R1', 'helpers/unmodified', '%s:%d' % (rd.file, rd.line), 'no assembly helper modifies in place what it hands back',
+              'an input is modified in place inside an assembly helper: ' + '; '.join(hm[:3]))
     # ---- R2 ------------------------------------------------------------------------------------------
     for phase, want in (('Detect', {'platform_dir_path': '[1]', 'build_plan_path': '[2]'}),
                         ('Build', {'layers_dir_path': '[1]', 'platform_dir_path': '[2]', 'buildpack_plan_path': '[3]'})):
@@ -207,6 +256,37 @@ def run(ctx, rep):
                     fv = nf
                 got[name] = fv[2] if fv[0] == 'index' and strip(fv[1])[0] == 'param' and strip(fv[1])[1] == pf.path else vstr(fv)[:40]
         rep.check(got == want, 'R2', phase, '%s:%d' % (pf.file, pf.line), '%sArgs <- %s' % (phase, want), '%sArgs fields come from argv positions %s, the spec order is %s' % (phase, got, want))
+    # the argv handed to the parsers is the process's argument list, element for element (no argument dropped, replaced or
+    # re-encoded on the way: positions and paths are exactly what the lifecycle passed)
+    from .lib import iters
+    for g in prog.find(r'^libcnb::runtime::libcnb_runtime(::\{closure#\d+\})*$'):
+        for c in g.calls:
+            if c.name in ('libcnb::runtime::DetectArgs::parse', 'libcnb::runtime::BuildArgs::parse') and c.args:
+                rep.analysed(g)
+                av = sl.inline_deep(sl.operand(g, c.args[0]))
+                al = iters.alts(sl, av)
+                ok = len(al) == 1 and al[0][1] is not None and not al[0][2] and strip(al[0][1])[0] == 'call' \
+                    and strip(al[0][1])[1] == 'std::env::args' and al[0][0] == iters.elem_of(al[0][1])
+                rep.check(ok, 'R2', 'argv-source/' + c.name.split('::')[-2], c.where(), 'argv = env::args(), element for element',
+                          'the argument list handed to %s is not env::args() unmodified: %s' % (c.name.split('::')[-2], vstr(av)[:140]))
+    # ... and what the phase entry points receive is the parser's result (a failed parse ends the process, it is not replaced)
+    from .lib.discard import diverges
+    for g in prog.find(r'^libcnb::runtime::libcnb_runtime(::\{closure#\d+\})*$'):
+        for c in g.calls:
+            if c.name in (RD, RB) and len(c.args) == 2:
+                phase = 'Detect' if c.name == RD else 'Build'
+                av = strip(sl.inline_deep(sl.operand(g, c.args[1]), keep=('libcnb::runtime::DetectArgs::parse', 'libcnb::runtime::BuildArgs::parse')))
+                for _ in range(4):
+                    if av[0] == 'call' and av[1] in ('std::result::Result::<T, E>::unwrap', 'std::result::Result::<T, E>::expect') and av[2]:
+                        av = strip(av[2][0])
+                    elif av[0] == 'call' and av[1] == 'std::result::Result::<T, E>::unwrap_or_else' and len(av[2]) == 2 and av[2][1][0] in ('closure', 'fnitem') \
+                            and av[2][1][1] in prog.fns and diverges(prog.fns[av[2][1][1]]):
+                        av = strip(av[2][0])
+                    else:
+                        break
+                ok = av[0] == 'call' and av[1] == 'libcnb::runtime::%sArgs::parse' % phase
+                rep.check(ok, 'R2', 'args-handed-on/' + phase, c.where(), 'libcnb_runtime_%s receives %sArgs::parse(argv)' % (phase.lower(), phase),
+                          'libcnb_runtime_%s receives %s' % (phase.lower(), vstr(av)[:140]))
     # ---- R4 ------------------------------------------------------------------------------------------
     pe = prog.fn('libcnb::platform::read_platform_env')
     rep.analysed(pe)
@@ -270,6 +350,93 @@ def run(ctx, rep):
         rep.check(okv, 'R4', 'value', c.where(), 'value = read_to_string(same entry)?, unmodified', 'variable value is ' + vstr(vv)[:140])
         rep.check(okg, 'R4', 'guard', c.where(), 'guarded by Path::is_file(entry) (follows symlinks)',
                   'insert guard is %s' % ['%s == %s' % (vstr(val)[:80], oc) for val, oc, ft in guard])
+        # -- nothing else decides whether a regular file becomes a variable: every guard of the insert is either "an input
+        #    read succeeded / is present" or a file-type test implied by is_file(entry) (no filter on names or contents)
+        extra = []
+        for kraw, vraw, gs in cases:
+            pv = H.entry_path_of(strip(kraw), strip(vraw))
+            extra.extend(x for x in H.extra_guards(sl, prog, gs, lambda p_: pv is not None and H._same(strip(p_), pv)) if x not in extra)
+        rep.check(bool(cases) and not extra, 'R4', 'only-file-filter', c.where(), 'is_file(entry) is the only filter between a directory entry and its variable',
+                  'a regular file is additionally skipped unless: %s' % '; '.join(extra[:4]))
+        # -- every entry of the listing is looked at: loops are left on success only by exhaustion, no truncating adapter
+        probs, undecided = [], False
+        for e in ins_effs:
+            pr = H.exhaustive_problems(E, e)
+            if pr is None:
+                undecided = True
+            else:
+                probs.extend(x for x in pr if x not in probs)
+        if undecided and not probs:
+            rep.unproven('R4', 'all-entries', c.where(), 'the iteration that runs the insert has a shape that is not modelled')
+        else:
+            rep.check(not probs, 'R4', 'all-entries', c.where(), 'the iteration over <platform>/env visits every entry (left only by exhaustion or an error)',
+                      'entries can be left unvisited without an error: ' + '; '.join(probs[:3]))
+        # -- a failed directory entry is an error: the element Result of the listing is propagated, not skipped
+        bad = []
+        for kraw, vraw, gs in cases:
+            it = H.iterated_element(('tuple', (kraw, vraw)))
+            if it is not None:
+                bad.append('the entry Result is iterated (flatten / into_iter), which skips Err: ' + vstr(it)[:100])
+        rfns = []
+        for rx in ASSEMBLY_RX[1:2]:
+            rfns.extend(prog.find(rx))
+        for path_, g in sorted(prog.reach(rfns).items()):
+            if g.crate == 'libcnb' and g.vis != 'pub' and g not in rfns:
+                rfns.append(g)
+        nexts = 0
+        for g in rfns:
+            for nc in g.calls:
+                if not nc.indirect and nc.decl == 'std::iter::Iterator::next' and (nc.dty or '').startswith('std::option::Option<std::result::Result<'):
+                    nexts += 1
+                    fts = H.element_fates(prog, g, nc)
+                    vd = verdict(fts)
+                    if vd == 'discarded':
+                        bad.append('%s: %s' % (nc.where(), '; '.join(x.detail or x.kind for x in fts if x.kind == 'discarded')))
+                    elif vd not in ('ok', 'panics'):
+                        bad.append('%s: fate of the entry Result unknown (%s)' % (nc.where(), [repr(x) for x in fts][:2]))
+        rep.check(not bad, 'R4', 'entry-error', pw, 'a directory entry that cannot be read is an error (%d explicit next() sites)' % nexts,
+                  'a directory entry that cannot be read is silently skipped: ' + '; '.join(bad[:3]))
+        # -- the Env handed back contains nothing but these inserts: it starts out empty and is the one inserted into
+        fresh = H.fresh_env_problems(E, pe, ins_effs)
+        # -- name and content are not changed in place between the read and the insert (truncating a trailing newline, case
+        #    mapping): the locals that carry them — in the function that inserts and in the helpers / closures that hand
+        #    them back — are never borrowed mutably (the Env being filled is, by design)
+        from .lib.mir import op_place as _opl3
+        im = []
+        not_env = lambda g_, ls: {l_ for l_ in ls if 'libcnb::env::Env' not in g_.locals[l_]['ty']}
+        for g in rfns:
+            starts = [0] if g is not pe else []
+            for e in ins_effs:
+                if e.call.fn is g:
+                    starts.extend(_opl3(a)[0] for a in e.call.args[1:3] if _opl3(a))
+            if starts:
+                im.extend(x for x in H.inplace_mutations(g, not_env(g, H.carried_locals(g, starts))) if x not in im)
+        rep.check(not im, 'R4', 'unmodified', c.where(), 'name and content are not modified in place between read and insert',
+                  'a variable name / content is modified in place before it is inserted: ' + '; '.join(im[:3]))
+        rep.check(not fresh, 'R4', 'fresh-env', pw, 'the returned Env starts empty (Env::new) and is the one the variables are inserted into',
+                  'the platform Env is not built from an empty Env: ' + '; '.join(fresh[:3]))
+    # -- Env::insert itself stores (key, value) as given: the map entry is (key.into(), value.into()), neither changed in place
+    ei = prog.fns.get(INSERT)
+    if ei is None:
+        rep.unproven('R4', 'env-insert', pw, INSERT + ' not found')
+    else:
+        rep.analysed(ei)
+        puts = [c_ for c_ in ei.calls if not c_.indirect and (c_.decl or '').startswith('std::collections::') and (c_.decl or '').endswith('::insert') and len(c_.args) == 3]
+        if len(puts) != 1:
+            rep.unproven('R4', 'env-insert', '%s:%d' % (ei.file, ei.line), '%d map insert sites in Env::insert' % len(puts))
+        else:
+            pc = puts[0]
+            mv, kv_, vv_ = (sl.operand(ei, a) for a in pc.args)
+            isp = lambda v_, i: H.same_string(strip(v_))[0] == 'param' and H.same_string(strip(v_))[1] == ei.path and H.same_string(strip(v_))[2] == i
+            m0 = strip(mv)
+            shape = m0[0] == 'field' and strip(m0[1])[0] == 'param' and strip(m0[1])[2] == 0 and isp(kv_, 1) and isp(vv_, 2)
+            from .lib.mir import op_place as _opl2
+            starts = [_opl2(a)[0] for a in pc.args[1:] if _opl2(a)]
+            muts = H.inplace_mutations(ei, H.carried_locals(ei, starts))
+            always = all(ei.dominates(pc.bb, b_) for b_ in ei.return_blocks())
+            rep.check(shape and not muts and always, 'R4', 'env-insert', pc.where(), 'Env::insert(k, v) stores (k.into(), v.into()) unconditionally',
+                      'Env::insert does not store the pair it is given: map.insert(%s, %s)%s%s' % (vstr(kv_)[:50], vstr(vv_)[:50], ' after ' + '; '.join(muts[:2]) if muts else '',
+                                                                                                     '' if always else ' (not on every path)'))
     # NotFound tolerance on the listing
     errs = [d for d in pe.whole_defs(0) if d[0] == 'stmt' and d[3]['r'] == 'agg' and d[3].get('variant') == 'Err']
     oks = [d for d in pe.whole_defs(0) if d[0] == 'stmt' and d[3]['r'] == 'agg' and d[3].get('variant') == 'Ok']
@@ -295,12 +462,37 @@ def run(ctx, rep):
             through = all(to[1] not in pe.reachable(is_err[-1].target, stop=[cd.sw_bb]) or to[1] == cd.sw_bb for to in oks)
             tol_ok = shape and (not is_nf) and through
     rep.check(tol_ok, 'R4', 'listing-tolerance', pw, 'a failed listing is tolerated only for ErrorKind::NotFound', 'listing error tolerance is not NotFound-only (%s)' % detail)
+    # ... and NotFound is the *only* kind that is tolerated: from the arm where the listing has failed, no success return is
+    # reachable except through a decision "kind is exactly NotFound"
+    from .lib.effects import success_sites
+    ok_bbs = {st.bb for st in success_sites(pe)}
+    leaks, arms = [], 0
+    for bi in range(len(pe.blocks)):
+        t = pe.blocks[bi]['t']
+        if t['t'] != 'switch':
+            continue
+        for tb in set([x for _, x in t['targets']] + [t['else']]):
+            cd = H.edge_cond(pe, bi, tb, sl)
+            if cd is not None and cd.kind == 'variant' and cd.outcome == frozenset({'Err'}) and cd.subject is not None \
+                    and strip(cd.subject)[0] == 'call' and strip(cd.subject)[1] == 'std::fs::read_dir':
+                arms += 1
+                leaks.extend(H.tolerated_without_not_found(pe, sl, tb, ok_bbs))
+    if arms == 0:
+        # the listing's failure is not matched in read_platform_env itself (`?` / combinators): nothing is tolerated here;
+        # whether NotFound is tolerated at all is the obligation above
+        rep.holds('R4', 'listing-tolerance-exact', pw, 'no explicit Err arm on the listing in read_platform_env')
+    else:
+        rep.check(not leaks, 'R4', 'listing-tolerance-exact', pw, 'from the failed-listing arm, success is reachable only under kind() == NotFound',
+                  'a failed listing of <platform>/env ends in success for error kinds other than NotFound (success at bb%s)' % sorted(set(leaks)))
     gp = prog.fn('<libcnb::generic::GenericPlatform as libcnb::platform::Platform>::from_path')
     rep.analysed(gp)
     v = sl.inline_deep(sl.mk_unwrap(sl.local(gp, 0), 1), keep=(pe.path,))
     bv = strip(v)
     ev = dict(bv[3]).get('env', ('unknown',)) if bv[0] == 'agg' and (bv[1] or '').endswith('GenericPlatform') else ('unknown',)
     ok = ev[0] == 'unwrap' and strip(ev)[0] == 'call' and strip(ev)[1] == pe.path and strip(strip(ev)[2][0])[0] == 'param'
+    gm = H.inplace_mutations(gp, H.carried_locals(gp, [0]))
+    rep.check(not gm, 'R4', 'generic-platform-unmodified', '%s:%d' % (gp.file, gp.line), 'the Env read is handed on without being modified in place',
+              'GenericPlatform::from_path modifies the Env it read: ' + '; '.join(gm[:3]))
     rep.check(ok, 'R4', 'generic-platform', '%s:%d' % (gp.file, gp.line), 'GenericPlatform::from_path = Ok(Self{env: read_platform_env(dir)?})', 'GenericPlatform::from_path = ' + vstr(v)[:120])
     # ---- R5 ------------------------------------------------------------------------------------------
     st_ok = False
@@ -335,6 +527,114 @@ def run(ctx, rep):
                     st_ok = e1 and e2 and e3
                     detail = 'Err=%s IoError=%s not_found=%s' % (e1, e2, e3)
     rep.check(st_ok, 'R5', 'store/none', '%s:%d' % (rb.file, rb.line), 'store = None only for Err(IoError(e)) with e.kind() == NotFound', 'store tolerance: ' + detail)
+    # the store handed to build is, in every alternative, either None or Some(the parsed <layers>/store.toml): no stand-in
+    # (default / empty store) for a store that could not be read
+    sv = fb.get('store') if fb else None
+    if sv is None:
+        rep.unproven('R5', 'store/some', '%s:%d' % (rb.file, rb.line), 'BuildContext.store not found')
+    else:
+        bad = []
+        n_some = 0
+        for a in H.alternatives(sl, sv):
+            a0 = strip(a)
+            if a0[0] == 'agg' and a0[2] == 'None':
+                continue
+            x = H.some_payload(a0)
+            if x is not None and propagated(x) and L.comps(toml_read_path(x), lambda v_: args_field(v_, rb.path, 'layers_dir_path')) == ('store.toml',):
+                n_some += 1
+                continue
+            bad.append(vstr(a0)[:100])
+        rep.check(not bad and n_some > 0, 'R5', 'store/some', '%s:%d' % (rb.file, rb.line), 'store is None or Some(read_toml_file(<layers>/store.toml)?) in every alternative',
+                  'BuildContext.store can also be %s' % '; '.join(bad[:3]) if bad else 'BuildContext.store is never the parsed store.toml')
+    # the workspace's not-found predicate that R5 / other tolerance decisions rely on says exactly `kind() == NotFound`
+    pf = prog.fns.get(nf_pred)
+    if pf is not None:
+        rep.analysed(pf)
+        pv = sl.local(pf, 0)
+        neg = False
+        while pv[0] == 'un' and pv[1] == 'Not':
+            pv, neg = pv[2], not neg
+        class _C:     # a boolean "decision" on the predicate's returned expression being true
+            kind = 'bool'
+        res = H.not_found_test([(pv, not neg)], _C, None)
+        okp = any(holds is True and strip(ev)[0] == 'param' for ev, holds in res)
+        rep.check(okp, 'R5', 'not-found-predicate', '%s:%d' % (pf.file, pf.line), '%s(e) = (e.kind() == NotFound)' % nf_pred.split('::')[-1],
+                  '%s is not exactly `kind() == NotFound`: %s' % (nf_pred.split('::')[-1], vstr(pv)[:160]))
+    # ---- R7 ------------------------------------------------------------------------------------------
+    # R1 treats read_toml_file(P) as "the document at P, parsed": that is what its body has to be. In normal form (private
+    # helpers inlined, `?` / map_err / and_then resolved): toml::from_str(&fs::read_to_string(P)?)? with P its parameter,
+    # nothing computing on the text in between, no stand-in for a file that cannot be read.
+    tf = prog.fns.get(READ_TOML)
+    if tf is None:
+        rep.unproven('R7', 'read_toml_file', '-', READ_TOML + ' not found')
+    else:
+        rep.analysed(tf)
+        tw = '%s:%d' % (tf.file, tf.line)
+        tv = sl.inline_deep(sl.mk_unwrap(sl.local(tf, 0), 1))
+        doc = core(tv)
+        parsed = propagated(tv) and doc[0] == 'call' and doc[1] in ('toml::from_str', 'toml::de::from_str') and len(doc[2]) == 1
+        text = H.same_string(doc[2][0]) if parsed else ('unknown',)
+        rd_ = core(text)
+        ok = parsed and propagated(text) and rd_[0] == 'call' and rd_[1] == 'std::fs::read_to_string' and len(rd_[2]) == 1 \
+            and H.same_string(strip(rd_[2][0]))[0] == 'param' and H.same_string(strip(rd_[2][0]))[1] == tf.path
+        rep.check(ok, 'R7', 'read_toml_file', tw, 'read_toml_file(P) = toml::from_str(&fs::read_to_string(P)?)?',
+                  'read_toml_file does not parse exactly the text of the file it is given: ' + vstr(tv)[:160])
+    # ---- R8 ------------------------------------------------------------------------------------------
+    # what "parsed" means for the plan and the store (derived Deserialize impls, read off the generated code): the keys of
+    # the spec map to the same-named fields, metadata is an arbitrary TOML table, and a key the type cannot represent is an
+    # error (deny_unknown_fields) instead of being dropped
+    from .lib import serde_schema as S
+    TABLE = ('toml::map::Map<std::string::String, toml::Value>', 'toml::Value', 'toml::value::Value')
+    bc = prog.adt('libcnb::build::BuildContext')
+    fty = {x['name']: x['ty'] for v_ in (bc['variants'] if bc else []) for x in v_['fields']}
+    plan_ty = fty.get('buildpack_plan')
+    store_ty = (fty.get('store') or '')[len('std::option::Option<'):-1] if (fty.get('store') or '').startswith('std::option::Option<') else None
+    entry_ty = None
+    docs = []
+    if plan_ty:
+        sp = S.deser_struct(prog, sl, plan_ty)
+        docs.append(('BuildpackPlan', plan_ty, sp, {'entries': 'entries'}))
+        ek = sp['keys'].get('entries') if sp else None
+        if ek is not None and ek.ty and ek.ty.startswith('std::vec::Vec<'):
+            entry_ty = ek.ty[len('std::vec::Vec<'):-1]
+        docs.append(('Entry', entry_ty, S.deser_struct(prog, sl, entry_ty) if entry_ty else None, {'name': 'name', 'metadata': 'metadata'}))
+    docs.append(('Store', store_ty, S.deser_struct(prog, sl, store_ty) if store_ty else None, {'metadata': 'metadata'}))
+    desc_ty = (fty.get('buildpack_descriptor') or '').split('<', 1)[0] or None
+    docs.append(('Descriptor', desc_ty, S.deser_struct(prog, sl, desc_ty) if desc_ty else None,
+                 {'api': 'api', 'buildpack': 'buildpack', 'stacks': 'stacks', 'targets': 'targets', 'metadata': 'metadata'}))
+    for label, ty, sc, want in docs:
+        where = '-'
+        a = prog.adt(ty) if ty else None
+        if a:
+            where = '%s:%d' % (a['file'], a['line'])
+        if sc is None or sc.get('kind') != 'struct':
+            rep.unproven('R8', 'schema/' + label, where, 'no derived struct Deserialize found for %s' % ty)
+            continue
+        for fp in sc['fns']:
+            if fp in prog.fns:
+                rep.analysed(prog.fns[fp])
+        got = {k.key: k.field for k in sc['keys'].values()}
+        rep.check(got == want and not sc['problems'], 'R8', 'schema/%s/keys' % label, where, '%s: keys %s' % (label, sorted(want)),
+                  '%s is read from keys %s (spec: %s) %s' % (label, got, want, sc['problems'] or ''))
+        rep.check(sc['strict'] is True, 'R8', 'schema/%s/strict' % label, where, '%s rejects unknown keys' % label,
+                  '%s silently ignores keys it cannot represent (no deny_unknown_fields)' % label)
+        mk = sc['keys'].get('metadata')
+        if 'metadata' in want and label != 'Descriptor':      # (the descriptor's metadata type is the buildpack's own)
+            rep.check(mk is not None and mk.ty in TABLE, 'R8', 'schema/%s/metadata' % label, where, '%s.metadata is an arbitrary TOML table' % label,
+                      '%s.metadata has type %s' % (label, mk.ty if mk else None))
+        def empty_default(name, depth=0):
+            # the callee producing the value of an absent key yields the empty value: Default::default / an argument-less
+            # `new`, directly or through a workspace function that returns just that
+            if name in (None, 'None') or name.endswith(('Default::default', 'Default>::default', '::new')):
+                return True
+            g_ = prog.fns.get(name)
+            if g_ is None or depth > 3 or g_.argc:
+                return False
+            rv_ = strip(sl.local(g_, 0))
+            return rv_[0] == 'call' and not rv_[2] and empty_default(rv_[1], depth + 1)
+        dflt = [(k.key, k.default) for k in sc['keys'].values() if not empty_default(str(k.default) if k.default is not None else None)]
+        rep.check(not dflt, 'R8', 'schema/%s/defaults' % label, where, '%s: an absent key is an error or the empty value' % label,
+                  '%s fills absent keys with %s' % (label, dflt))
     # ---- R6 ------------------------------------------------------------------------------------------
     n = 0
     fns = []
@@ -346,7 +646,7 @@ def run(ctx, rep):
     # outside the property's subject, as in C12)
     out_of_subject = lambda p_: p_.startswith('libcnb::tracing::')
     for path, g in sorted(prog.reach(fns, stop=lambda f_: out_of_subject(f_.path)).items()):
-        if path not in have and g.crate == 'libcnb' and g.vis != 'pub' and g.kind in ('Fn', 'AssocFn', 'Closure') and not out_of_subject(path):
+        if path not in have and g.crate in ('libcnb', 'libcnb_common') and g.vis != 'pub' and g.kind in ('Fn', 'AssocFn', 'Closure') and not out_of_subject(path):
             fns.append(g)
     for f in fns:
         rep.analysed(f)
